@@ -5,6 +5,7 @@ import (
 	"go/token"
 	"go/types"
 	"regexp"
+	"regexp/syntax"
 	"strings"
 
 	"golang.org/x/tools/go/ssa"
@@ -268,7 +269,7 @@ func init() {
 	})
 
 	register(&Rule{
-		ID: "C08.R11", Props: []string{"C08", "C07", "C05", "C15"}, Min: 2,
+		ID: "C08.R13", Props: []string{"C08", "C07", "C05", "C15"}, Min: 2,
 		Doc: "a front-matter fence is three dashes at the start of a line, whatever ends the line: the byte strings extractFrontMatter searches for to find the opening and the closing fence do not include the line terminator that follows the dashes (`---\\n`), unless the `\\r\\n` form is looked for as well — a file saved with CRLF line endings, or with a blank after the dashes, otherwise has no front-matter: its `layout:` and every variable it defines silently disappear and the YAML is printed as text",
 		Run: func(p *Prog, c *Ctx) {
 			fn := p.MustFn("vuego.extractFrontMatter")
@@ -1299,7 +1300,7 @@ func init() {
 	})
 
 	register(&Rule{
-		ID: "C05.R13", Props: []string{"C05", "C01"}, Min: 1,
+		ID: "C05.R14", Props: []string{"C05", "C01"}, Min: 1,
 		Doc: "bound props keep their type: where the include evaluator decodes prop values that look like JSON (`data='{…}'` written in the template), the decision to decode also looks at how the prop was written — a lookup in a set of the bound names, a test of the attribute key — and not only at the value. A string the *data* supplied through `:text=\"msg\"` that happens to start with `[` or `{` otherwise reaches the component as a list or a map (and a data value such as `{}` is printed as map[])",
 		Run: func(p *Prog, c *Ctx) {
 			fn := p.MustFn("(*vuego.Vue).evalTemplate")
@@ -1415,8 +1416,17 @@ func init() {
 									carrier = true
 								}
 								if enteredOnlyUnder(ks.Block(), func(cnd ssa.Value, want bool) bool {
-									x, s, ok := eqConstCond(cnd, want)
-									return ok && (s == carrierHTML || s == carrierText) && (x == ks.Val || sameValue(x, ks.Val))
+									// key == carrier, or key ∈ a constant table of carriers (slices.Contains, a lookup table)
+									x, set, member, ok := inSetOnEdge(cnd, want)
+									if !ok || !member || len(set) == 0 || !(x == ks.Val || sameValue(x, ks.Val)) {
+										return false
+									}
+									for _, s := range set {
+										if s != carrierHTML && s != carrierText {
+											return false
+										}
+									}
+									return true
 								}) {
 									carrier = true
 								}
@@ -1449,5 +1459,609 @@ func init() {
 				undecided("no store of a v-html / v-text content carrier found")
 			}
 		},
+	})
+
+	register(&Rule{
+		ID: "C14.R16", Props: []string{"C14", "C13"}, Min: 2,
+		Doc: "the hand-written scanners of attribute values know the brackets they may meet: the splitter of :class / :style object items compares the characters it scans with `(`, `)`, `[` and `]` as well as with the braces (a comma inside an array literal or an argument list belongs to the item: `{c: x in ['a', 'b']}`), and the splitter of style declarations does not cut the value with a plain strings.Split at `;` but scans it and knows `(` and `)` (`url(data:image/png;base64,…)` is one declaration). A scanner that never looks for a character cannot treat it specially",
+		Run: func(p *Prog, c *Ctx) {
+			items := p.MustFn("(*vuego.Vue).splitObjectItems")
+			have := comparedChars(items)
+			missing := ""
+			for _, ch := range "()[]" {
+				if !have[ch] {
+					missing += string(ch)
+				}
+			}
+			c.check(missing == "", "splitObjectItems: knows parentheses and square brackets", p.pos(items.Pos()), "compares the scanned character with ( ) [ ]", fmt.Sprintf("the item splitter never compares a character with %q: a comma inside an array literal or an argument list ends the item — `{c: x in ['a', 'b'], d: wide}` loses c", missing))
+			decls := p.MustFn("vuego.parseStyleDecls")
+			var split ssa.Instruction
+			for _, site := range callsIn(decls) {
+				nm := calleeName(site.Common())
+				if nm == "strings.Split" || nm == "strings.SplitN" || nm == "strings.FieldsFunc" || nm == "strings.SplitSeq" {
+					if len(site.Common().Args) >= 2 {
+						if sep, ok := constString(site.Common().Args[1]); ok && sep == ";" {
+							split = site
+						}
+					}
+				}
+			}
+			haveD := comparedChars(decls)
+			pos := p.pos(decls.Pos())
+			if split != nil {
+				pos = p.instrPos(split)
+			}
+			c.check(split == nil && haveD['('] && haveD[')'] && haveD[';'], "parseStyleDecls: declarations are not cut inside parentheses", pos, "scans the value and knows ( ) ;", "the style value is cut at every `;` (strings.Split, or a scan that never looks for parentheses): `background:url(data:image/png;base64,AAAA)` is split in two when a binding or v-show makes the engine re-write the attribute, and the second half is lost")
+		},
+	})
+
+	register(&Rule{
+		ID: "C03.R17", Props: []string{"C03", "C14"}, Min: 1,
+		Doc: "nil is falsy whatever type it wears: helpers.IsTruthy asks IsNil of a reflected pointer — a nil *T that arrives in an interface is not the untyped nil its `case nil` catches; answered `true` it renders the v-if branch and writes title=\"<nil>\"",
+		Run: func(p *Prog, c *Ctx) {
+			fn := p.MustFn("helpers.IsTruthy")
+			asks := false
+			var at ssa.Instruction
+			for _, site := range callsIn(fn) {
+				if calleeName(site.Common()) == "(reflect.Value).IsNil" {
+					asks = true
+					at = site
+				}
+			}
+			pos := p.pos(fn.Pos())
+			if at != nil {
+				pos = p.instrPos(at)
+			}
+			c.check(asks, "IsTruthy: a nil pointer is falsy", pos, "IsNil is asked of the reflected value", "IsTruthy never asks a reflected value whether it is nil: every pointer is truthy, the nil ones included — `v-if=\"ptr\"` renders its branch and `:title=\"ptr\"` writes <nil> for a nil *T, while the untyped nil is falsy")
+		},
+	})
+
+	register(&Rule{
+		ID: "C17.R17", Props: []string{"C17"}, Min: 1,
+		Doc: "white space around a path is not part of it, dotted or not: every name Stack.Resolve hands to Lookup comes from text that went through strings.TrimSpace (the path splitter trims each segment; the fast path for plain names must do the same) — otherwise Resolve(\" xs[1] \") finds its element and Resolve(\" n \") does not find n",
+		Run: func(p *Prog, c *Ctx) {
+			fn := p.MustFn("(*vuego.Stack).Resolve")
+			n := 0
+			for _, site := range callsIn(fn) {
+				if !isStackCall(site.Common(), "Lookup") {
+					continue
+				}
+				n++
+				arg := site.Common().Args[1]
+				trimmed := false
+				for _, o := range append(p.origins(arg, OriginOpts{}), arg) {
+					switch x := o.(type) {
+					case *ssa.Call:
+						nm := calleeName(&x.Call)
+						if nm == "strings.TrimSpace" || nm == "helpers.TrimHTMLSpace" || nm == "vuego.getCachedPath" || nm == "vuego.splitPathImpl" {
+							trimmed = true
+						}
+					case *ssa.UnOp:
+						// an element of the split path: the splitter trims its segments
+						if ia, ok := x.X.(*ssa.IndexAddr); ok {
+							for _, oo := range append(p.origins(ia.X, OriginOpts{}), ia.X) {
+								if cl, ok := oo.(*ssa.Call); ok && (calleeName(&cl.Call) == "vuego.getCachedPath" || calleeName(&cl.Call) == "vuego.splitPathImpl") {
+									trimmed = true
+								}
+							}
+						}
+					}
+				}
+				c.check(trimmed, fmt.Sprintf("Resolve: Lookup#%d gets a trimmed name", n), p.instrPos(site), "the name went through TrimSpace or the path splitter", "Resolve hands the text to Lookup as it was written: white space around a plain name makes it unknown, while the same white space around a dotted or bracketed path is ignored")
+			}
+			if n == 0 {
+				undecided("Stack.Resolve no longer calls Lookup")
+			}
+		},
+	})
+
+	register(&Rule{
+		ID: "C19.R18", Props: []string{"C19"}, Min: 3,
+		Doc: "what holds for an element holds for it inside <pre> too: (a) where the formatter walks the children of a <pre> / <textarea> / <listing> itself (renderPreContent), text is escaped only under a test that its parent is not a raw-text element — the parser does not decode the text of a <script>, <style> or <xmp> nested in the block, and escaping it adds one level of `&amp;` per pass; (b) the same walk writes the compensating newline for a nested <pre> / <textarea> / <listing> whose content begins with one; (c) the test that takes a body for a full document because it begins with `<html` also looks at the character after the name (`>`, `/`, white space): <html-viewer> is another element",
+		Run: func(p *Prog, c *Ctx) {
+			pre := p.MustFn("(*formatter.Formatter).renderPreContent")
+			n := 0
+			for _, site := range callsIn(pre) {
+				if calleeName(site.Common()) != "formatter.escapeText" {
+					continue
+				}
+				n++
+				guarded := false
+				for _, g := range controllingIfs(site) {
+					for _, leaf := range condLeaves(g.If.Cond) {
+						if cl, ok := leaf.(*ssa.Call); ok && calleeName(&cl.Call) == "formatter.isRawTextElement" {
+							guarded = true
+						}
+					}
+				}
+				c.check(guarded, fmt.Sprintf("renderPreContent: escapeText#%d spares raw text", n), p.instrPos(site), "under a raw-text test of the parent", "inside <pre> every text node is escaped, also the text of a nested <script> / <style> / <xmp>, which the parser hands over undecoded: `a<b` becomes `a&lt;b`, then `a&amp;lt;b` on the next pass")
+			}
+			if n == 0 {
+				undecided("renderPreContent no longer escapes text through escapeText")
+			}
+			nl := false
+			var at ssa.Instruction
+			for _, site := range callsIn(pre) {
+				if calleeName(site.Common()) == "strings.HasPrefix" && len(site.Common().Args) == 2 {
+					if s, ok := constString(site.Common().Args[1]); ok && s == "\n" {
+						nl = true
+						at = site
+					}
+				}
+			}
+			pos := p.pos(pre.Pos())
+			if at != nil {
+				pos = p.instrPos(at)
+			}
+			c.check(nl, "renderPreContent: a nested <pre>/<textarea> keeps its leading newline", pos, "content that begins with a newline is tested for", "the walk inside <pre> writes a nested <textarea>, <pre> or <listing> without the extra newline that compensates the one the parser drops after their start tag: `<pre><textarea>\\n\\nfoo` loses one leading newline per pass")
+			format := p.MustFn("(*formatter.Formatter).Format")
+			have := comparedChars(format)
+			c.check(have['>'] && have['/'] && have[' '], "Format: `<html` is a tag name only when the name ends there", p.pos(format.Pos()), "the character after the name is compared with > / and white space", "the full-document test is a bare prefix test on `<html`: a fragment that starts with <html-viewer> or <htmlx-el> is parsed as a document and comes back wrapped in html, head and body elements")
+		},
+	})
+}
+
+func init() {
+	register(&Rule{
+		ID: "C16.R12", Props: []string{"C16", "C14", "C01"}, Min: 1,
+		Doc: "children are skipped only when something replaced them: in evaluate's element path the decision not to evaluate an element's children is made on the content carrier the v-html / v-text handler stored (the clone carries data-v-html-content / data-v-text-content), not on the mere presence of the directive — when the directive's value does not resolve, the handlers store nothing and the children are the element's fallback: unevaluated they are written as template source ({{ }} literal, :attr and v-if ignored) and a v-once child is emitted at every iteration",
+		Run: func(p *Prog, c *Ctx) {
+			fn := p.MustFn("(*vuego.Vue).evaluate")
+			n := 0
+			for _, site := range callsIn(fn) {
+				if calleeName(site.Common()) != "(*vuego.Vue).evaluateChildren" {
+					continue
+				}
+				onDirective, onCarrier := false, false
+				for _, g := range controllingIfs(site) {
+					for _, leaf := range condLeaves(g.If.Cond) {
+						var walk func(v ssa.Value, d int)
+						walk = func(v ssa.Value, d int) {
+							if v == nil || d > 4 {
+								return
+							}
+							switch x := v.(type) {
+							case *ssa.Call:
+								nm := calleeName(&x.Call)
+								if (nm == "helpers.GetAttr" || nm == "helpers.HasAttr") && len(x.Call.Args) == 2 {
+									if s, ok := constString(x.Call.Args[1]); ok {
+										if s == "v-html" || s == "v-text" {
+											onDirective = true
+										}
+										if s == carrierHTML || s == carrierText {
+											onCarrier = true
+										}
+									}
+								}
+							case *ssa.BinOp:
+								walk(x.X, d+1)
+								walk(x.Y, d+1)
+							case *ssa.UnOp:
+								walk(x.X, d+1)
+							case *ssa.Phi:
+								for _, e := range x.Edges {
+									walk(e, d+1)
+								}
+							}
+						}
+						walk(leaf, 0)
+					}
+				}
+				if !onDirective && !onCarrier {
+					continue // (a call for another construct: templates, slots)
+				}
+				n++
+				c.check(onCarrier, fmt.Sprintf("evaluate: children#%d are skipped only when a carrier replaced them", n), p.instrPos(site), "decided on the content carrier", "whether an element's children are evaluated is decided by the presence of v-html / v-text alone: when the value does not resolve nothing replaces the children, and they reach the output unevaluated — `<div v-html=\"missing\"><p v-if=\"off\">{{ x }}</p></div>` writes the <p> with its {{ x }}, and a v-once child is emitted at every loop iteration")
+			}
+			if n == 0 {
+				undecided("evaluate no longer decides about the children of a v-html / v-text element next to its call of evaluateChildren")
+			}
+		},
+	})
+
+	register(&Rule{
+		ID: "C08.R14", Props: []string{"C08", "C04", "C13"}, Min: 1,
+		Doc: "every map with string keys supplies variables: toMapData, which turns the data of a render call (and of Fill) into the root scope, enumerates the entries of a map of any type with string keys (a reflect MapRange / MapKeys walk under a Kind()==Map test) — not only of the exact type map[string]any. A map[string]string or a named map type (type H map[string]any, the shape of gin.H) otherwise gives an empty root scope: its values lose to theme.yml and data/*.yml, and expressions evaluated over the merged environment cannot see them",
+		Run: func(p *Prog, c *Ctx) {
+			fn := p.MustFn("vuego.toMapData")
+			walks := false
+			var at ssa.Instruction
+			for f := range p.Cone(fn) {
+				if !inModule(f) {
+					continue
+				}
+				// the struct converter walks maps it finds inside structs: that is not the root data itself
+				if n := shortName(f); strings.Contains(n, "structToMap") || strings.Contains(n, "StructToMap") {
+					continue
+				}
+				for _, site := range callsIn(f) {
+					nm := calleeName(site.Common())
+					if nm == "(reflect.Value).MapRange" || nm == "(reflect.Value).MapKeys" {
+						walks = true
+						at = site
+					}
+				}
+			}
+			pos := p.pos(fn.Pos())
+			if at != nil {
+				pos = p.instrPos(at)
+			}
+			c.check(walks, "toMapData: maps of every string-keyed type are enumerated", pos, "a reflect walk over the map's entries", "toMapData recognises the exact type map[string]any (and structs) only: data of another map type — map[string]string, a named map such as gin.H — yields an empty root scope; Fill(map[string]string{\"title\": …}) loses to theme.yml, and v-if / :attr expressions inside loops do not see the root variables")
+		},
+	})
+}
+
+func init() {
+	register(&Rule{
+		ID: "C04.R13", Props: []string{"C04"}, Min: 1,
+		Doc: "the loop variable ends at the keyword, not inside a name: parseFor separates variable(s) and collection at `in` with white space on both sides — a literal separator ` in ` handed to strings.Cut / SplitN / Index / Split, or a regular expression in whose pattern (read from the source as a constant and parsed with regexp/syntax, never run) the literal `in` is preceded and followed by at least one mandatory white-space character. `\\s*in` lets the keyword match inside `admin in admins`: variable `adm`, collection `in admins`, which does not resolve — the loop silently renders nothing and its v-else is shown",
+		Run: func(p *Prog, c *Ctx) {
+			fn := p.MustFn("vuego.parseFor")
+			n := 0
+			for _, site := range callsIn(fn) {
+				nm := calleeName(site.Common())
+				args := site.Common().Args
+				switch {
+				case nm == "strings.Cut" || nm == "strings.SplitN" || nm == "strings.Split" || nm == "strings.Index" || nm == "strings.LastIndex" || nm == "strings.SplitSeq":
+					if len(args) < 2 {
+						continue
+					}
+					sep, ok := constString(args[1])
+					if !ok || !strings.Contains(sep, "in") {
+						continue
+					}
+					n++
+					okSep := len(sep) >= 4 && isSpaceByte(sep[0]) && isSpaceByte(sep[len(sep)-1]) && strings.TrimSpace(sep) == "in"
+					c.check(okSep, fmt.Sprintf("parseFor: separator#%d is the keyword between white space", n), p.instrPos(site), fmt.Sprintf("separator %q", sep), fmt.Sprintf("the v-for expression is cut at %q: without white space on both sides the keyword also matches inside a name (`admin in admins`, `x in bins`)", sep))
+				case strings.HasPrefix(nm, "(*regexp.Regexp)."):
+					pat, ok := regexpPattern(p, args[0])
+					n++
+					if !ok {
+						undecided("parseFor uses a regular expression whose pattern is not a constant the analysis can read")
+					}
+					why := keywordDelimited(pat, "in")
+					c.check(why == "", fmt.Sprintf("parseFor: pattern#%d delimits the keyword by mandatory white space", n), p.instrPos(site), fmt.Sprintf("pattern %q", pat), fmt.Sprintf("in the pattern %q %s: the keyword can match inside a name — for `admin in admins` the variable becomes `adm` and the collection `in admins`, which does not resolve: no instance is rendered and the v-else is shown", pat, why))
+				}
+			}
+			if n == 0 {
+				undecided("parseFor separates variable and collection in a way this rule does not recognise")
+			}
+		},
+	})
+}
+
+func isSpaceByte(b byte) bool { return b == ' ' || b == '\t' || b == '\n' || b == '\r' }
+
+// regexpPattern: the constant pattern of the *regexp.Regexp value v (a package-level variable initialised with
+// regexp.MustCompile(const), or a MustCompile / Compile call in the function itself).
+func regexpPattern(p *Prog, v ssa.Value) (string, bool) {
+	for _, o := range append(p.origins(v, OriginOpts{}), v) {
+		switch x := o.(type) {
+		case *ssa.Call:
+			if nm := calleeName(&x.Call); nm == "regexp.MustCompile" || nm == "regexp.Compile" || nm == "regexp.MustCompilePOSIX" {
+				if s, ok := constString(x.Call.Args[0]); ok {
+					return s, true
+				}
+			}
+		case *ssa.Extract:
+			if cl, ok := x.Tuple.(*ssa.Call); ok && calleeName(&cl.Call) == "regexp.Compile" {
+				if s, ok := constString(cl.Call.Args[0]); ok {
+					return s, true
+				}
+			}
+		case *ssa.UnOp:
+			g, ok := x.X.(*ssa.Global)
+			if !ok {
+				continue
+			}
+			init := g.Pkg.Func("init")
+			if init == nil {
+				continue
+			}
+			found, pat := 0, ""
+			eachInstr(init, func(in ssa.Instruction) {
+				if st, ok := in.(*ssa.Store); ok && st.Addr == ssa.Value(g) {
+					if cl, ok := st.Val.(*ssa.Call); ok && strings.HasPrefix(calleeName(&cl.Call), "regexp.MustCompile") {
+						if s, ok := constString(cl.Call.Args[0]); ok {
+							found++
+							pat = s
+						}
+					}
+				}
+			})
+			if found == 1 {
+				return pat, true
+			}
+		}
+	}
+	return "", false
+}
+
+// keywordDelimited reads a pattern's syntax tree (it is not run): every occurrence of the literal keyword must have a
+// mandatory white-space element directly before and after it within its concatenation. It returns what is missing.
+func keywordDelimited(pattern, kw string) string {
+	re, err := syntax.Parse(pattern, syntax.Perl)
+	if err != nil {
+		return "(the pattern does not parse: " + err.Error() + ")"
+	}
+	mandatorySpace := func(r *syntax.Regexp) bool {
+		isSpaceClass := func(x *syntax.Regexp) bool {
+			switch x.Op {
+			case syntax.OpLiteral:
+				for _, ch := range x.Rune {
+					if ch != ' ' && ch != '\t' && ch != '\n' && ch != '\r' {
+						return false
+					}
+				}
+				return len(x.Rune) > 0
+			case syntax.OpCharClass:
+				// \s = [\t\n\f\r ]: every range inside white space
+				for i := 0; i+1 < len(x.Rune); i += 2 {
+					for ch := x.Rune[i]; ch <= x.Rune[i+1]; ch++ {
+						if ch != ' ' && ch != '\t' && ch != '\n' && ch != '\r' && ch != '\f' && ch != '\v' {
+							return false
+						}
+					}
+				}
+				return len(x.Rune) > 0
+			}
+			return false
+		}
+		switch r.Op {
+		case syntax.OpPlus:
+			return isSpaceClass(r.Sub[0])
+		case syntax.OpRepeat:
+			return r.Min >= 1 && isSpaceClass(r.Sub[0])
+		}
+		return isSpaceClass(r)
+	}
+	found := false
+	why := ""
+	var walk func(r *syntax.Regexp)
+	walk = func(r *syntax.Regexp) {
+		if r.Op == syntax.OpConcat {
+			for i, sub := range r.Sub {
+				if sub.Op != syntax.OpLiteral {
+					continue
+				}
+				lit := string(sub.Rune)
+				idx := strings.Index(lit, kw)
+				if idx < 0 {
+					continue
+				}
+				found = true
+				before := idx > 0 && isSpaceByte(lit[idx-1])
+				after := idx+len(kw) < len(lit) && isSpaceByte(lit[idx+len(kw)])
+				if !before && idx == 0 && i > 0 && mandatorySpace(r.Sub[i-1]) {
+					before = true
+				}
+				if !after && idx+len(kw) == len(lit) && i+1 < len(r.Sub) && mandatorySpace(r.Sub[i+1]) {
+					after = true
+				}
+				if !before {
+					why = "the keyword `" + kw + "` is not preceded by mandatory white space"
+				} else if !after {
+					why = "the keyword `" + kw + "` is not followed by mandatory white space"
+				}
+			}
+		}
+		for _, sub := range r.Sub {
+			walk(sub)
+		}
+	}
+	walk(re)
+	if !found {
+		return "the keyword `" + kw + "` does not occur as a literal"
+	}
+	return why
+}
+
+func init() {
+	register(&Rule{
+		ID: "C10.R10", Props: []string{"C10", "C13"}, Min: 3,
+		Doc: "no second, unordered way to enumerate a map: the builtins of the expression language that walk a map — keys, values, toPairs — are built from reflect MapKeys() without sorting; the engine replaces each of them (an expr.Function of that name among the options it compiles every expression with, as it does for string()) or disables it. Left alone, `keys(m)[0] == 'a'` in a v-if and `join(keys(m), \",\")` in {{ }} change from one render of the same inputs to the next. (That each replacement sorts what MapKeys returned is C10.R1's obligation.)",
+		Run: func(p *Prog, c *Ctx) {
+			fn := p.MustFn("(*vuego.ExprEvaluator).getProgram")
+			names := map[string]ssa.Instruction{}
+			nameOfOption := func(v ssa.Value) (string, bool) {
+				var fromCall func(cl *ssa.Call) (string, bool)
+				fromCall = func(cl *ssa.Call) (string, bool) {
+					nm := calleeName(&cl.Call)
+					if (strings.HasSuffix(nm, "expr.Function") || strings.HasSuffix(nm, "expr.DisableBuiltin") || inModule(cl.Call.StaticCallee())) && len(cl.Call.Args) > 0 {
+						if s, ok := constString(cl.Call.Args[0]); ok {
+							return s, true
+						}
+					}
+					return "", false
+				}
+				for _, o := range append(p.origins(v, OriginOpts{}), v) {
+					switch x := o.(type) {
+					case *ssa.Call:
+						if s, ok := fromCall(x); ok {
+							return s, true
+						}
+					case *ssa.UnOp:
+						g, ok := x.X.(*ssa.Global)
+						if !ok {
+							continue
+						}
+						init := g.Pkg.Func("init")
+						if init == nil {
+							continue
+						}
+						name, found := "", false
+						eachInstr(init, func(in ssa.Instruction) {
+							if st, ok := in.(*ssa.Store); ok && st.Addr == ssa.Value(g) {
+								if cl, ok := st.Val.(*ssa.Call); ok {
+									if s, ok := fromCall(cl); ok {
+										name, found = s, true
+									}
+								}
+							}
+						})
+						if found {
+							return name, true
+						}
+					}
+				}
+				return "", false
+			}
+			compiles := 0
+			for _, site := range callsIn(fn) {
+				if !strings.HasSuffix(calleeName(site.Common()), "expr.Compile") {
+					continue
+				}
+				compiles++
+				// the options: elements stored into the variadic backing array
+				eachInstr(fn, func(in ssa.Instruction) {
+					st, ok := in.(*ssa.Store)
+					if !ok {
+						return
+					}
+					if _, isEl := st.Addr.(*ssa.IndexAddr); !isEl {
+						return
+					}
+					if s, ok := nameOfOption(st.Val); ok {
+						names[s] = st
+					}
+				})
+			}
+			if compiles == 0 {
+				undecided("getProgram no longer compiles expressions with expr.Compile")
+			}
+			for _, want := range []string{"keys", "values", "toPairs"} {
+				at, ok := names[want]
+				pos := p.pos(fn.Pos())
+				if ok {
+					pos = p.instrPos(at)
+				}
+				c.check(ok, "getProgram: the evaluator's "+want+"() is replaced or disabled", pos, "an option of that name is handed to expr.Compile", "expressions are compiled with the expression library's own "+want+"(): it enumerates a map in Go's random iteration order, so `"+want+"(m)` gives a different list — and a v-if over it a different branch — from one render of the same template and data to the next")
+			}
+		},
+	})
+}
+
+func init() {
+	register(&Rule{
+		ID: "C10.R11", Props: []string{"C10", "C08", "C09"}, Min: 1,
+		Doc: "the engine's configuration is read-only once it is loaded: the values held in the engine's config map (theme.yml, data/*.yml, WithData: Vue.initialData) are followed from every read of that map outside the loader that fills it — into the maps they are copied to, out of those again by lookup or range, through type assertions and into the functions they are passed to — and nothing writes through them. A merge that descends into a nested section and assigns there (`overriding theme.header.title keeps the rest of theme.header`) writes one request's values into the map every later render reads",
+		Run: func(p *Prog, c *Ctx) {
+			t := newROTaint(p)
+			// the loader(s): functions that assign entries of the config map itself
+			loader := map[*ssa.Function]bool{}
+			for _, fn := range p.liveFuncs() {
+				eachInstr(fn, func(in ssa.Instruction) {
+					if mu, ok := in.(*ssa.MapUpdate); ok {
+						if f := loadedField(mu.Map); f != nil && fieldIs(f, "initialData") {
+							loader[rootFunc(fn)] = true
+						}
+					}
+				})
+			}
+			seeds := 0
+			for _, fn := range p.liveFuncs() {
+				if loader[rootFunc(fn)] {
+					continue
+				}
+				eachInstr(fn, func(in ssa.Instruction) {
+					ld, ok := in.(*ssa.UnOp)
+					if !ok || ld.Op != token.MUL {
+						return
+					}
+					if f := loadedField(ld); f != nil && fieldIs(f, "initialData") {
+						if _, isMap := ld.Type().Underlying().(*types.Map); isMap {
+							seeds++
+							t.seed(ld, "the engine's configuration map read at "+p.instrPos(ld))
+						}
+					}
+				})
+			}
+			if seeds == 0 {
+				undecided("nothing reads the engine's configuration map (Vue.initialData)")
+			}
+			t.run()
+			c.note("%d reads of the configuration map, %d values followed, %d uses examined", seeds, len(t.why), t.uses)
+			c.ok("configuration values followed", "-", fmt.Sprintf("%d reads of the engine's configuration map followed to all uses", seeds))
+			for _, vi := range t.viol {
+				c.fail(fmt.Sprintf("%s: %s through a configuration value", shortName(vi.at.Parent()), vi.what), p.instrPos(vi.at), vi.what+" on a value that belongs to the engine's configuration: "+shortWhy(vi.why)+" — what one request fills in stays in theme.yml's section for every later render of the engine (and two requests race on it)")
+			}
+		},
+	})
+}
+
+// comparedChars: the characters a function (closures and inlined helpers included) compares something with —
+// operands of == / != / switch cases, and the members of constant sets handed to strings.ContainsRune / IndexByte /
+// ContainsAny / IndexAny / IndexRune.
+func comparedChars(fn *ssa.Function) map[rune]bool {
+	out := map[rune]bool{}
+	// the function itself, its closures, and the module helpers it calls that work on text alone (every
+	// parameter a string, byte, rune or byte slice): hasTagPrefixFold(s, tag), splitStyleDecls(style)
+	fns := []*ssa.Function{fn}
+	seenFn := map[*ssa.Function]bool{fn: true}
+	textOnly := func(f *ssa.Function) bool {
+		if len(f.Params) == 0 {
+			return false
+		}
+		for _, prm := range f.Params {
+			switch u := prm.Type().Underlying().(type) {
+			case *types.Basic:
+			case *types.Slice:
+				if b, ok := u.Elem().Underlying().(*types.Basic); !ok || b.Kind() != types.Byte {
+					return false
+				}
+			default:
+				return false
+			}
+		}
+		return true
+	}
+	for i := 0; i < len(fns) && i < 12; i++ {
+		walkFuncTree(fns[i], func(f *ssa.Function) {
+			for _, site := range callsIn(f) {
+				if callee := site.Common().StaticCallee(); callee != nil && inModule(callee) && len(callee.Blocks) > 0 && !seenFn[callee] && textOnly(callee) {
+					seenFn[callee] = true
+					fns = append(fns, callee)
+				}
+			}
+		})
+	}
+	for _, root := range fns {
+		comparedCharsIn(root, out)
+	}
+	return out
+}
+
+func comparedCharsIn(fn *ssa.Function, out map[rune]bool) {
+	walkFuncTree(fn, func(f *ssa.Function) {
+		eachInstr(f, func(in ssa.Instruction) {
+			switch x := in.(type) {
+			case *ssa.BinOp:
+				if x.Op != token.EQL && x.Op != token.NEQ {
+					return
+				}
+				for _, v := range []ssa.Value{x.X, x.Y} {
+					if k, ok := constInt(v); ok && k > 0 && k < 0x110000 {
+						out[rune(k)] = true
+					}
+					if s, ok := constString(v); ok && len([]rune(s)) == 1 {
+						out[[]rune(s)[0]] = true
+					}
+				}
+			case ssa.CallInstruction:
+				switch calleeName(x.Common()) {
+				case "strings.ContainsRune", "strings.IndexByte", "strings.IndexRune", "strings.ContainsAny", "strings.IndexAny", "bytes.IndexByte", "bytes.ContainsRune", "bytes.ContainsAny":
+					for _, a := range x.Common().Args {
+						if s, ok := constString(a); ok {
+							for _, r := range s {
+								out[r] = true
+							}
+						}
+						if k, ok := constInt(a); ok && k > 0 && k < 0x110000 {
+							out[rune(k)] = true
+						}
+					}
+				}
+			}
+		})
 	})
 }
